@@ -4,27 +4,26 @@ namespace Gimli.Line
 open Gimli Gimli.Spec Gimli.Spec.Line
 
 /-- what one `next_row` call does, in terms of the trace -/
-def NextSpec (h : Params) (f : Nat) (row : Row) (input : Bytes) : Next × Row × Bytes → Prop
-  | (.none, _, _) => vis (traceLoop h f row input) = []
-  | (.row r, row', input') =>
-    vis (traceLoop h f row input) = .row r :: vis (traceLoop h (input'.length + 1) (reset h row') input') ∧
+def NextSpec (h : Params) (f : Nat) (row : Row) (inSeq : Bool) (input : Bytes) :
+    Next × Row × Bool × Bytes → Prop
+  | (.none, _, _, _) => vis (traceLoop h f row inSeq input) = []
+  | (.row r, row', b', input') =>
+    vis (traceLoop h f row inSeq input) =
+      .row r :: vis (traceLoop h (input'.length + 1) (reset h row') b' input') ∧
       input'.length < input.length
-  | (.err e, row', input') =>
-    vis (traceLoop h f row input) = .err e :: vis (traceLoop h (input'.length + 1) (reset h row') input') ∧
+  | (.err e, row', b', input') =>
+    vis (traceLoop h f row inSeq input) =
+      .err e :: vis (traceLoop h (input'.length + 1) (reset h row') b' input') ∧
       input'.length < input.length
-  | (.stuck, _, _) => False
+  | (.stuck, _, _, _) => False
 
-theorem stepEv_err (h : Params) (row row' : Row) (ins : Instr) (e : Err)
-    (hex : execute h row ins = (row', .err e)) : stepEv h row ins = ([.err e], reset h row') := by
-  unfold stepEv; rw [hex]
-
-theorem nextRowLoop_spec (h : Params) : ∀ (f : Nat) (row : Row) (input : Bytes), input.length < f →
-    NextSpec h f row input (nextRowLoop h f row input) := by
+theorem nextRowLoop_spec (h : Params) : ∀ (f : Nat) (row : Row) (inSeq : Bool) (input : Bytes),
+    input.length < f → NextSpec h f row inSeq input (nextRowLoop h f row inSeq input) := by
   intro f
   induction f with
-  | zero => intro row input hl; omega
+  | zero => intro row inSeq input hl; omega
   | succ f ih =>
-    intro row input hl
+    intro row inSeq input hl
     rw [nextRowLoop]
     by_cases hem : input.isEmpty = true
     · simp only [hem, ↓reduceIte, NextSpec]
@@ -43,29 +42,30 @@ theorem nextRowLoop_spec (h : Params) : ∀ (f : Nat) (row : Row) (input : Bytes
       | ok p =>
         obtain ⟨ins, rest⟩ := p
         have hc := parseInstr_consumes h input ins rest hp
-        have hT : traceLoop h (f + 1) row input =
-            (stepEv h row ins).1 ++ traceLoop h (rest.length + 1) (stepEv h row ins).2 rest := by
-          rw [traceLoop_fuel h (f + 1) (input.length + 1) row input (by omega) (by omega)]
-          exact traceLoop_stepEv h row input ins rest hp
-        have hfuel : ∀ row', traceLoop h (rest.length + 1) row' rest = traceLoop h f row' rest :=
-          fun row' => traceLoop_fuel h _ _ row' rest (by omega) (by omega)
+        have hT : traceLoop h (f + 1) row inSeq input =
+            (stepEv h row inSeq ins).1 ++
+              traceLoop h (rest.length + 1) (stepEv h row inSeq ins).2.1 (stepEv h row inSeq ins).2.2 rest := by
+          rw [traceLoop_fuel h (f + 1) (input.length + 1) row inSeq input (by omega) (by omega)]
+          exact traceLoop_stepEv h row inSeq input ins rest hp
+        have hfuel : ∀ row' b, traceLoop h (rest.length + 1) row' b rest = traceLoop h f row' b rest :=
+          fun row' b => traceLoop_fuel h _ _ row' b rest (by omega) (by omega)
         simp only
         cases hex : execute h row ins with
         | mk row' e =>
           cases e with
           | err e =>
-            rw [stepEv_err h row row' ins e hex] at hT
+            rw [stepEv_err h row row' inSeq ins e hex] at hT
             simp only [NextSpec, hT]
             exact ⟨by simp [vis, List.filter, Ev.visible], hc⟩
           | noEmit =>
-            rw [stepEv_noEmit h row row' ins hex] at hT
+            rw [stepEv_noEmit h row row' inSeq ins hex] at hT
             simp only [List.nil_append, hfuel] at hT
             simp only
-            have := ih row' rest (by omega)
+            have := ih row' inSeq rest (by omega)
             revert this
-            cases hq : nextRowLoop h f row' rest with
+            cases hq : nextRowLoop h f row' inSeq rest with
             | mk nx st =>
-              obtain ⟨r2, i2⟩ := st
+              obtain ⟨r2, b2, i2⟩ := st
               cases nx with
               | none => simp only [NextSpec, hT]; exact id
               | row r => simp only [NextSpec, hT]; exact fun ⟨a, b⟩ => ⟨a, by omega⟩
@@ -73,52 +73,53 @@ theorem nextRowLoop_spec (h : Params) : ∀ (f : Nat) (row : Row) (input : Bytes
               | stuck => simp only [NextSpec]; exact id
           | emit =>
             simp only
-            by_cases ht : row'.tombstone = true
-            · rw [stepEv_hidden h row row' ins hex ht] at hT
+            by_cases ht : skipRow row' inSeq = true
+            · rw [stepEv_hidden h row row' inSeq ins hex ht] at hT
               simp only [hfuel] at hT
               simp only [ht, ↓reduceIte]
-              have := ih (reset h row') rest (by omega)
+              have := ih (reset h row') inSeq rest (by omega)
               revert this
-              cases hq : nextRowLoop h f (reset h row') rest with
+              cases hq : nextRowLoop h f (reset h row') inSeq rest with
               | mk nx st =>
-                obtain ⟨r2, i2⟩ := st
-                have hv : vis ([Ev.hidden row'] ++ traceLoop h f (reset h row') rest) =
-                    vis (traceLoop h f (reset h row') rest) := by simp [vis, Ev.visible]
+                obtain ⟨r2, b2, i2⟩ := st
+                have hv : vis ([Ev.hidden row'] ++ traceLoop h f (reset h row') inSeq rest) =
+                    vis (traceLoop h f (reset h row') inSeq rest) := by simp [vis, Ev.visible]
                 cases nx with
                 | none => simp only [NextSpec, hT, hv]; exact id
                 | row r => simp only [NextSpec, hT, hv]; exact fun ⟨a, b⟩ => ⟨a, by omega⟩
                 | err e => simp only [NextSpec, hT, hv]; exact fun ⟨a, b⟩ => ⟨a, by omega⟩
                 | stuck => simp only [NextSpec]; exact id
-            · rw [stepEv_row h row row' ins hex ht] at hT
+            · rw [stepEv_row h row row' inSeq ins hex ht] at hT
               simp only [ht, Bool.false_eq_true, ↓reduceIte, NextSpec, hT]
               exact ⟨by simp [vis, List.filter, Ev.visible], hc⟩
 
 /-- **The Model's trace is what the caller collects**: calling `next_row()` until `Ok(None)`
 returns, call by call, exactly the visible events of the fused trace. -/
-theorem collect_eq_run (h : Params) : ∀ (n : Nat) (row : Row) (input : Bytes), input.length < n →
-    collect h n row input = vis (traceLoop h (input.length + 1) (reset h row) input) := by
+theorem collect_eq_run (h : Params) : ∀ (n : Nat) (row : Row) (inSeq : Bool) (input : Bytes),
+    input.length < n →
+    collect h n row inSeq input = vis (traceLoop h (input.length + 1) (reset h row) inSeq input) := by
   intro n
   induction n with
-  | zero => intro row input hl; omega
+  | zero => intro row inSeq input hl; omega
   | succ n ih =>
-    intro row input hl
+    intro row inSeq input hl
     rw [collect]
-    have hs := nextRowLoop_spec h (input.length + 1) (reset h row) input (by omega)
+    have hs := nextRowLoop_spec h (input.length + 1) (reset h row) inSeq input (by omega)
     unfold nextRow
     revert hs
-    cases hq : nextRowLoop h (input.length + 1) (reset h row) input with
+    cases hq : nextRowLoop h (input.length + 1) (reset h row) inSeq input with
     | mk nx st =>
-      obtain ⟨r2, i2⟩ := st
+      obtain ⟨r2, b2, i2⟩ := st
       cases nx with
       | none => simp only [NextSpec]; intro hs; rw [hs]
       | row r =>
         simp only [NextSpec]
         intro ⟨a, b⟩
-        rw [a, ih r2 i2 (by omega)]
+        rw [a, ih r2 b2 i2 (by omega)]
       | err e =>
         simp only [NextSpec]
         intro ⟨a, b⟩
-        rw [a, ih r2 i2 (by omega)]
+        rw [a, ih r2 b2 i2 (by omega)]
       | stuck => simp only [NextSpec]; exact False.elim
 
 end Gimli.Line
